@@ -228,6 +228,17 @@ EXTRA = {
  "C13": (" (narrow) Only the modes without stored inner prefixes narrow the step to 16 bits: every narrowing conversion on the construction "
          "path is bounded (rule shared with C08), so no mode silently loses retained keys that another mode finds."),
 }
+ALIGN = (" (align) wherever the position at which the builder cuts labels (bmtree.PathsOf/PathOf) is aligned by a constant mask, the mask clears "
+         "log2(w) low bits for every label word size w that can reach the same call with it (leaves paired per phi edge and helper return).")
+CAPACITY = (" (capacity) presence bitmaps cover every ordinal their readers probe: capacity = last counter-derived ordinal + 1, or the bound of the loop whose indexes are listed (rule shared with C01).")
+EXTRA["C01"] += ALIGN
+EXTRA["C03"] = CODEC + ALIGN
+EXTRA["C08"] = ALIGN
+EXTRA["C12"] += CODEC + ALIGN
+EXTRA["C13"] += CODEC
+EXTRA["C09"] = CODEC
+EXTRA["C04"] = CAPACITY
+EXTRA["C10"] += CAPACITY
 for _k, _v in EXTRA.items():
     CLAIMS[_k]["text"] = CLAIMS[_k]["text"] + _v
 
